@@ -16,7 +16,7 @@ def run(ctx):
     ctx.rule = ("M: all inputs <= 6/8 bytes over {@,+,LF,CR,A}; record lists <= 2/3 from a pool x 8 corruption kinds x every record; "
                 "R: every emitted (text, items) pair; T: one session = one record list, its writes, reads and corruptions")
     ctx.assumptions += ["bufio.Scanner is exercised, not modelled beyond ScanLines"]
-    ctx.model_check("MC_Fastq", "MC_Fastq_machine8" if thorough else "MC_Fastq_machine6", workers=8)
+    ctx.model_check("MC_Fastq", "MC_Fastq_machine9" if thorough else "MC_Fastq_machine6", workers=8)
     ctx.model_check("MC_Fastq", "MC_Fastq_corrupt_t" if thorough else "MC_Fastq_corrupt_q", workers=8)
     r = ctx.model_check("MC_Fastq", "MC_Fastq_corrupt_emit", workers=4, count=False)
     cases = codec.emitted_cases(r["out"])
@@ -30,7 +30,7 @@ def run(ctx):
         cc.append({"text": conc(c["text"]), "items": items, "j": c["j"], "kind": c["kind"]})
     codec.replay_cases(ctx, "fastq-replay", cc, "fastq text", lambda c: "text=%s (corruption %s of record %d)" % (bytes(c["text"]), c["kind"], c["j"]))
     vlib.log("  [R] %d model texts (valid and corrupted) read by the real Reader (A -> %d)" % (len(cc), a))
-    leg_T(ctx, 300 if thorough else 40)
+    leg_T(ctx, 1000 if thorough else 40)
     ctx.exhaustive = True
 
 
